@@ -420,6 +420,23 @@ def rule_vectors(ctx: Ctx, typer: Typer):
                 and not [st for st in _stores_of(f, flags) if fdef[0].lineno < st.lineno < ost.lineno] \
                 and not [st for st in _stores_of(f, env["out"]) if ost.lineno < st.lineno < rst.lineno]
     ctx.check(ok, "VEC-1", f, f.node, "explicitly absorbing states are always absorbing (or-ed in)", "", "explicit absorbing flags can be masked out")
+    # VEC-2 (written after seed C01-b / C06-b): a per-state vector derived from an (S, A, S') model array keeps the SOURCE-state axis,
+    # i.e. a reduction applied directly to (a comparison of) self.reward_matrix / self.transition_matrix reduces exactly axes 1 and 2
+    for red in [c for c in ast.walk(f.node) if isinstance(c, ast.Call) and isinstance(c.func, ast.Attribute) and c.func.attr in ("all", "any", "sum", "max", "min")]:
+        recv = red.func.value
+        arrays = {a.attr for a in ast.walk(recv) if isinstance(a, ast.Attribute) and isinstance(a.value, ast.Name) and a.value.id == f.self_name}
+        if not arrays or not arrays <= {"reward_matrix", "transition_matrix"} or any(isinstance(x, ast.Call) for x in ast.walk(recv)):
+            continue
+        ax = kwarg(red, "axis") or (red.args[0] if red.args else None)
+        try:
+            axes = ast.literal_eval(ax) if ax is not None else None
+        except Exception:
+            axes = "?"
+        axes = {axes} if isinstance(axes, int) else (set(axes) if isinstance(axes, (tuple, list)) else axes)
+        ok = axes in ({1, 2}, {-1, -2}, {1, -1}, {-2, 2}) if isinstance(axes, set) else None
+        ctx.check(ok, "VEC-2", f, red, f"per-state flag derived from {'/'.join(sorted(arrays))} keeps the source-state axis (reduces the action and successor axes)", str(axes),
+                  f"`{norm(red, 70)}` reduces axes {axes} of an (S, A, S') array: what is left is not indexed by the source state, so the flag of a state is computed "
+                  f"from the transitions INTO it")
     f = C.methods["_unable_to_reach_absorbing"]
     src = ast.unparse(f.node)
     ctx.check(has_cmp(f.node, "self.discount_rate", "<", "1.0") and "floyd_warshall" in src and "self.absorbing_state_vec" in src, "VEC-1", f, f.node,
@@ -586,6 +603,6 @@ def run(ctx: Ctx):
     rule_lists(ctx)
     mods = ("msdm.core.mdp.mdp", "msdm.core.mdp.tabularmdp", "msdm.core.mdp.quickmdp")
     arg_permutation_rule(ctx, G, [f for f in P.all_functions() if f.module.name in mods], "ARG")
-    for r, k in (("TEN-4", 17), ("ZERO-1", 2), ("REACH-1", 1), ("REACH-2", 3), ("REACH-3", 2), ("VEC-1", 7), ("FM-1", 25), ("QK-1", 13), ("LIST-1", 3), ("ARG", 5)):
+    for r, k in (("TEN-4", 17), ("ZERO-1", 2), ("REACH-1", 1), ("REACH-2", 3), ("REACH-3", 2), ("VEC-1", 7), ("VEC-2", 1), ("FM-1", 25), ("QK-1", 13), ("LIST-1", 3), ("ARG", 5)):
         ctx.require(r, k)
     ctx.assume("Table._validate_table rejects duplicate coordinates; state/action lists inferred from sets are duplicate-free")
